@@ -42,15 +42,17 @@ where
 
     Observable::create(move |s| {
       {
-        let last_item = &*last_item.read().unwrap();
-        let last_error = &*last_error.read().unwrap();
+        // copy the state out: no lock is held while the subscriber is called (it may
+        // call back into this subject)
+        let last_item = last_item.read().unwrap().clone();
+        let last_error = last_error.read().unwrap().clone();
 
         if let Some(err) = last_error {
-          s.error(err.clone());
+          s.error(err);
           return;
         }
         if let Some(item) = last_item {
-          s.next(item.clone());
+          s.next(item);
         } else {
           s.complete();
           return;
